@@ -260,8 +260,10 @@ def programs(draw, *, pool=PLAIN_POOL, min_splitters=0, max_splitters=3, conditi
             classes[n] = "any"
     salt = draw(st.one_of(st.none(), st.sampled_from(salts))) if salts else None
     name = draw(st.sampled_from(names))
-    prog = M.program(name, body, salt=salt, splitters=splitters or None,
-                     salt_q=draw(st.sampled_from(['"', "'"])))
+    salt_q = draw(st.sampled_from(['"', "'"]))
+    if salt is not None and salt_q in salt:
+        salt_q = "'" if salt_q == '"' else '"'
+    prog = M.program(name, body, salt=salt, splitters=splitters or None, salt_q=salt_q)
     return {"prog": prog, "classes": classes}
 
 
